@@ -49,6 +49,7 @@ func genC13(t *core.Tape, tier string) *Scenario {
 	for i := 0; i < nclients; i++ {
 		c := genClientCfg(t)
 		c.ReadMax = 1 << 20
+		c.Hedge = t.Bool(1, 4, "hedge")
 		fixCompat(&c, &sc.Handlers[0])
 		sc.Clients = append(sc.Clients, c)
 	}
@@ -83,6 +84,12 @@ func genC13(t *core.Tape, tier string) *Scenario {
 			if t.Bool(1, 5, "fail") {
 				p.HErr = &ErrPlan{Code: uint32(1 + t.Choose(16, "err.code")), Msg: "failure of " + p.ID + " " + string(t.Bytes(t.Choose(30, "err.n"), 1, "err"))}
 				p.HErr.Meta = map[string][]string{"X-Err-Owner": {p.ID}}
+			}
+			// an intermediary that strips HTTP trailers: the gRPC call fails, and
+			// its error is its own
+			if sc.Clients[p.Client].Proto == PGRPC && p.HErr == nil && t.Bool(1, 5, "drop.trailers") {
+				p.K.DropTrailers = true
+				sc.Notes["trailers_dropped"]++
 			}
 			// closing a finished response twice (defer Close() plus an explicit
 			// Close()) is ordinary client code
@@ -200,6 +207,28 @@ func checkC13(w *World, st core.Status, r *RunResult) []Violation {
 		wantResp := p.RespMsgs
 		if p.Kind == KServer || p.Kind == KBidi {
 			wantResp = p.RespMsgs[:min(sendsPlanned(p), len(p.RespMsgs))]
+		}
+		if w.Sc.Clients[p.Client].Hedge && p.Kind != KUnary {
+			r.Probes["hedged_calls_checked"]++
+			if got := o.H.ReqHeader.Get("X-Attempt"); got != "primary" {
+				add("cross-talk/request-header-of-sibling-connection", fmt.Sprintf("the handler saw X-Attempt=%q on the primary connection", got))
+			}
+		}
+		if p.K.DropTrailers {
+			// the call fails (no grpc-status ever arrives); the error belongs to it
+			r.Probes["dropped_trailer_calls_checked"]++
+			var ce *connect.Error
+			if o.Final == nil || !errors.As(o.Final, &ce) || ce.Code() == 0 {
+				add("solo/dropped-trailers-outcome", fmt.Sprintf("trailers were stripped, client got %v", o.Final))
+			} else {
+				if v := ce.Meta().Get("X-Owner"); v != "" && v != p.ID {
+					add("cross-talk/error-metadata", fmt.Sprintf("the error's metadata carries call %s's response header", v))
+				}
+				if o.FinalMeta != "" && hdrString(ce.Meta()) != o.FinalMeta {
+					add("intact/error-metadata", fmt.Sprintf("error metadata changed after the error was returned: %s -> %s", o.FinalMeta, hdrString(ce.Meta())))
+				}
+			}
+			continue
 		}
 		if p.HErr == nil {
 			if o.Final != nil {
